@@ -8,8 +8,8 @@ SchemaAgree.tla / SchemaMeta.tla (model checking, wrong variants rejected, reach
 import collections, json, os, random, re, concurrent.futures as cf
 import vf
 
-AGREE_INVS = "TypeOK AgreeSound AgreeComplete ErrOnlyLate CtxOnlyCancelled CancelHonoured DeadlineHonoured DdlWaits"
-META_INVS = ("TypeOK NoStaleRead StaleHasPendingEvent FailedNotCached ErrorIsOwn NotExistOnlyIfAbsent SharedCache "
+AGREE_INVS = "ReachMarks TypeOK AgreeSound AgreeComplete ErrOnlyLate CtxOnlyCancelled CancelHonoured DeadlineHonoured DdlWaits"
+META_INVS = ("ReachMarks TypeOK NoStaleRead StaleHasPendingEvent FailedNotCached ErrorIsOwn NotExistOnlyIfAbsent SharedCache "
              "RouteFailedNotCached RouteSingleFlight RouteBounded RouteFromSchema")
 
 # wrong driver models TLC has to reject: (variant, invariant that must be violated)
@@ -20,11 +20,9 @@ META_WRONG = [("never_cache", "SharedCache", "PlansMeta2"), ("refresh_unlocked",
               ("no_clear_on_table", "NoStaleRead", "PlansMeta2"), ("lose_event", "StaleHasPendingEvent", "PlansMeta2"),
               ("route_never_cache", "RouteSingleFlight", "PlansRoute"), ("route_cache_failure", "RouteFailedNotCached", "PlansRoute")]
 # situations that must be reachable (TLC must find a counterexample to "never")
-AGREE_REACH = ["Never_nil", "Never_disagree", "Never_ctx", "Never_ddlerr", "Never_nullrow_agreement", "Never_invalidrow_agreement",
-               "Never_failed_then_nil", "Never_ddl_nil"]
-META_REACH = [("Never_hit", "PlansMeta2"), ("Never_torn", "PlansMeta2"), ("Never_notexist", "PlansMeta2"), ("Never_policy", "PlansMeta2"),
-              ("Never_route_key2", "PlansRoute"), ("Never_route_nil", "PlansRoute"), ("Never_route_evict", "PlansRoute"),
-              ("Never_route_join", "PlansRoute")]
+AGREE_REACH = {"nil", "disagree", "ctx", "ddlerr", "nullrow_agreement", "invalidrow_agreement", "failed_then_nil", "ddl_nil"}
+META_REACH = {"hit", "torn", "notexist", "policy", "clear_waits", "fetch_failed", "route_key2", "route_nil", "route_removed", "route_join",
+              "route_failed", "route_evicted_inflight"}
 
 WHAT = {
     "await-no-return-on-agreement-null-schema-version": "a system.peers row with a null schema_version is counted as a schema version of its own (the zero uuid): the wait does not end although every host that has a version agrees",
@@ -102,8 +100,6 @@ def model_jobs(ctx, quick):
     aw = AGREE_WRONG if not quick else [AGREE_WRONG[(ctx.seed + i) % len(AGREE_WRONG)] for i in range(2)]
     for v, inv in aw:
         jobs.append(("wrong", "agree_x_" + v, "MC_SchemaAgree", agree_cfg(ctx, "MC_SchemaAgree_g_x_%s.cfg" % v, variant=v), inv))
-    jobs.append(("reach", "agree_reach", "MC_SchemaAgree", agree_cfg(ctx, "MC_SchemaAgree_g_reach.cfg", invs=" ".join(AGREE_REACH), env=1,
-                                                                   polls=2), AGREE_REACH))
     # ---- metadata cache / events / routing
     jobs.append(("pass", "meta_callers", "MC_SchemaMeta", meta_cfg(ctx, "MC_SchemaMeta_g_meta.cfg", "PlansMeta2", maxver=2 if quick else 3,
                                                                    absent="{2}"), None))
@@ -129,10 +125,6 @@ def model_jobs(ctx, quick):
     mw = META_WRONG if not quick else [META_WRONG[(ctx.seed + 3 * i) % len(META_WRONG)] for i in range(3)]
     for v, inv, plans in mw:
         jobs.append(("wrong", "meta_x_" + v, "MC_SchemaMeta", meta_cfg(ctx, "MC_SchemaMeta_g_x_%s.cfg" % v, plans, variant=v, invs=inv), inv))
-    for plans in sorted({p for _, p in META_REACH}):
-        invs = [i for i, p in META_REACH if p == plans]
-        jobs.append(("reach", "meta_reach_" + plans, "MC_SchemaMeta", meta_cfg(ctx, "MC_SchemaMeta_g_reach_%s.cfg" % plans, plans, invs=" ".join(invs),
-                                                                             maxver=2, absent="{2}", fail=0), invs))
     return jobs
 
 
@@ -404,7 +396,7 @@ def run(ctx):
     # ---- 1. model passes (in the background)
     jobs = model_jobs(ctx, quick)
     fut_models = [(j, pool.submit(_tlc, ctx, j[2], j[3], j[1], 4 if j[0] == "pass" else 2, 1500 if quick else 3000, "4g",
-                                  extra=["-continue"] if j[0] == "reach" else None))
+                                  ))
                   for j in jobs]
 
     # ---- 2. behaviours from TLC
@@ -486,25 +478,25 @@ def run(ctx):
     # ---- 6. model passes
     states = trans = 0
     mcs = []
+    reached = set()
     for j, f in fut_models:
         kind, name, module, cfg, expect = j
         _, r = f.result()
         if kind == "pass":
+            reached |= set(re.findall(r'<<"REACHED", "(\w+)">>', r.out))
             if not r.ok:
                 raise vf.Inconclusive("model pass %s failed: violated=%s error=%s\n%s" % (name, r.violated, r.error, "\n".join(r.out.splitlines()[-40:])))
             states += r.distinct
             trans += r.generated
-        elif kind == "reach":
-            got = set(re.findall(r"Invariant (\S+) is violated", r.out))
-            if set(expect) - got:
-                raise vf.Inconclusive("%s: situations the model cannot reach (vacuous properties): %s" % (name, sorted(set(expect) - got)))
         elif r.violated != expect:
             raise vf.Inconclusive("%s: TLC was expected to violate %s (%s), got violated=%s ok=%s error=%s" % (
-                name, expect, {"wrong": "a wrong variant of the model must be rejected", "reach": "the situation must be reachable",
+                name, expect, {"wrong": "a wrong variant of the model must be rejected",
                                "asis": "the model of the known defect must contradict the property"}[kind], r.violated, r.ok, r.error))
-        mcs.append(dict(cfg=name, kind=kind, expected=(expect if isinstance(expect, str) else "reach: " + " ".join(expect)) if expect else "no error", distinct=r.distinct, generated=r.generated, depth=r.depth,
+        mcs.append(dict(cfg=name, kind=kind, expected=expect or "no error", distinct=r.distinct, generated=r.generated, depth=r.depth,
                         wall_s=round(r.wall, 1)))
     pool.shutdown()
+    if (AGREE_REACH | META_REACH) - reached:
+        raise vf.Inconclusive("situations the model passes did not reach (vacuous properties): %s" % sorted((AGREE_REACH | META_REACH) - reached))
     ctx.log("model: %d distinct states / %d transitions over %d passing configurations; %d wrong variants rejected, %d situations reached, "
             "%d known-defect models contradicted" % (states, trans, sum(1 for m in mcs if m["kind"] == "pass"),
                                                      sum(1 for m in mcs if m["kind"] == "wrong"), len(AGREE_REACH) + len(META_REACH),
